@@ -226,7 +226,9 @@ class ABNF:
         fin: int
             fin flag. if set to 0, create continue fragmentation.
         """
-        if opcode == ABNF.OPCODE_TEXT and isinstance(data, str):
+        if isinstance(data, str):
+            # text goes out as its UTF-8 bytes whatever the opcode (a continuation
+            # of a text message, a ping or pong payload given as str)
             data = data.encode("utf-8")
         # mask must be set if send data from client
         return ABNF(fin, 0, 0, 0, opcode, 1, data)
